@@ -28,9 +28,12 @@ const (
 	badBody
 	prevVariant
 	altBody
+	otherKeySig
 )
 
-var kindName = []string{"Genuine", "BadSig", "BadBody", "PrevVariant", "AltBody"}
+var kindName = []string{"Genuine", "BadSig", "BadBody", "PrevVariant", "AltBody", "OtherKeySig"}
+
+const nForged = 5
 
 type dblock struct {
 	seq  int
@@ -73,6 +76,11 @@ func (e *env) material(b dblock) coin.SignedBlock {
 			o = e.chain[0]
 		}
 		sb.Block.Body = o.Block.Body
+		return sb
+	case otherKeySig:
+		// the very same header and body, signed by another key
+		sb := g
+		sb.Sig = cipher.MustSignHash(g.Block.HashHeader(), e.other)
 		return sb
 	case altBody:
 		// genuine header and signature, a different body whose transactions are all
@@ -450,24 +458,33 @@ func run(args []string) error {
 		}
 	}
 	// targeted: every forged kind of block k delivered exactly when the node is ready for
-	// block k (alone, or followed in the same message by the genuine k), then the genuine k, k+1
+	// block k (alone, or followed in the same message by the genuine k), then the genuine k, k+1;
+	// each also after the genuine block k has already been seen and rejected out of order
 	for k := 1; k <= nex; k++ {
-		for fk := 1; fk <= 4; fk++ {
-			for variant := 0; variant < 2; variant++ {
+		for fk := 1; fk <= nForged; fk++ {
+			for variant := 0; variant < 4; variant++ {
 				var sched [][]dblock
 				var pre []dblock
 				for j := 1; j < k; j++ {
 					pre = append(pre, dblock{j, genuine})
 				}
+				if variant >= 2 {
+					// the genuine block k is SEEN AND REJECTED first (out of order), then the
+					// blocks below it arrive, then the forged copy arrives in order
+					if k == 1 {
+						continue
+					}
+					sched = append(sched, []dblock{{k, genuine}})
+				}
 				if len(pre) > 0 {
 					sched = append(sched, pre)
 				}
-				if variant == 0 {
+				if variant%2 == 0 {
 					sched = append(sched, []dblock{{k, kind(fk)}}, []dblock{{k, genuine}, {k + 1, genuine}})
 				} else {
 					sched = append(sched, []dblock{{k, kind(fk)}, {k, genuine}, {k + 1, genuine}}, []dblock{{k, genuine}, {k + 1, genuine}})
 				}
-				if err := add(sched, fk%2 == 0, "targeted"); err != nil {
+				if err := add(sched, (fk+variant)%2 == 0, "targeted"); err != nil {
 					return err
 				}
 			}
@@ -497,7 +514,7 @@ func run(args []string) error {
 			// forge some
 			for j := range m {
 				if r.Chance(12) {
-					m[j].kind = kind(1 + r.Intn(4))
+					m[j].kind = kind(1 + r.Intn(nForged))
 					hist.Add("forged:" + kindName[m[j].kind])
 				}
 			}
@@ -573,7 +590,7 @@ func run(args []string) error {
 	o.Def("cases_loop", "Z * Z * Z * Z * list Z", loops)
 
 	o.Side["cases"] = map[string]interface{}{"sync": cj, "loop": lj}
-	o.Side["rule"] = "a case is a delivery schedule (list of GiveBlocks messages, each a list of blocks: genuine / bad signature / swapped body / re-signed PrevHash variant / genuine header with a different VALID body) run on a fresh real follower visor through daemon.GiveBlocksMessage.process, followed by a sorted re-delivery; every schedule is distinct by construction; loop cases run the request/response cycle against the publisher's GetBlocksMessage.process"
+	o.Side["rule"] = "a case is a delivery schedule (list of GiveBlocks messages, each a list of blocks: genuine / bad signature / swapped body / re-signed PrevHash variant / genuine header with a different VALID body / genuine block signed by another key), forged kinds also after the genuine block was seen and rejected run on a fresh real follower visor through daemon.GiveBlocksMessage.process, followed by a sorted re-delivery; every schedule is distinct by construction; loop cases run the request/response cycle against the publisher's GetBlocksMessage.process"
 	o.Side["distribution"] = hist.Sorted()
 	o.Side["f1_accepts_prevhash_variant"] = e.f1
 	ns := len(cj)
